@@ -361,11 +361,14 @@ pub fn enumerate(specs: &[Specimen], seed: u64, tier: Tier, only_covered: bool) 
                 named.sort_by_key(|sp| (sp.start, sp.end));
                 for sp in named {
                     // structures of 4 KiB and more are read through the memory-mapped path: more positions there
-                    let per = if sp.end - sp.start >= 4096 { per * 8 } else { per };
+                    let big = sp.end - sp.start >= 4096 && !sp.name.starts_with("cluster data");
+                    let per = if big { per * 32 } else { per };
                     for _ in 0..per {
                         let pos = sp.start + rng.below(sp.end - sp.start);
                         if is_target(pos) {
-                            cases.push((si, Damage::Flip { file: fi, pos, mask: *rng.pick(&masks) }));
+                            // (tables of packed fields: also a bit in the middle of a byte)
+                            let mask = if big { *rng.pick(&[0x01u8, 0x08, 0x10, 0x80, 0xff]) } else { *rng.pick(&masks) };
+                            cases.push((si, Damage::Flip { file: fi, pos, mask }));
                         }
                     }
                 }
@@ -397,7 +400,13 @@ pub fn enumerate(specs: &[Specimen], seed: u64, tier: Tier, only_covered: bool) 
                     if *blen == 0 {
                         continue;
                     }
-                    let picks: Vec<u64> = if s.small && tier == Tier::Thorough && *blen <= 300 { (0..*blen).collect() } else { (0..tier.pick(2, 12)).map(|_| rng.below(*blen)).collect() };
+                    // every covered byte of a block that has few of them (a pack info: its first 38 bytes), a sample otherwise
+                    let targets: Vec<u64> = (0..*blen).filter(|o| is_target(bstart + o)).collect();
+                    let picks: Vec<u64> = if targets.len() <= 48 || (s.small && tier == Tier::Thorough && *blen <= 300) {
+                        targets
+                    } else {
+                        (0..tier.pick(2, 12)).map(|_| *rng.pick(&targets)).collect()
+                    };
                     for off in picks {
                         let pos = bstart + off;
                         if !is_target(pos) {
